@@ -252,13 +252,35 @@ the claimed root ends. -/
 def hasMatch (p : MerkleProof) (root : HashRange) : Bool :=
   p.hashRanges.any (fun m => m.upper == root.upper) || p.target.upper == root.upper
 
-/-- The merkle part of `Keeper.ValidateProof`: the number of sibling entries must equal
-`levels totalProofs` (this is what keeps `HashRanges[i]` in range), the `hasMatch` test, then
-`Validate` with that many levels.  Both early errors are reported as `(false, false)`. -/
-def validateProof (H : Bytes → Bytes) (post : Bool) (p : MerkleProof) (root : HashRange) (leaf : Bytes)
+/-- The merkle part of `Keeper.ValidateProof` with the leaf hash given: the number of sibling
+entries must equal `levels totalProofs` (this is what keeps `HashRanges[i]` in range), the
+`hasMatch` test, then `Validate` with that many levels.  Both early errors are `(false, false)`. -/
+def validateProofH (H : Bytes → Bytes) (post : Bool) (p : MerkleProof) (root : HashRange) (leafHash : Bytes)
     (totalProofs : Nat) : Option (Bool × Bool) :=
   if p.hashRanges.length ≠ levels totalProofs then some (false, false)
   else if !hasMatch p root then some (false, false)
-  else validate H post p root leaf p.hashRanges.length
+  else validateH H post p root leafHash p.hashRanges.length
+
+/-- The merkle part of `Keeper.ValidateProof`. -/
+def validateProof (H : Bytes → Bytes) (post : Bool) (p : MerkleProof) (root : HashRange) (leaf : Bytes)
+    (totalProofs : Nat) : Option (Bool × Bool) :=
+  validateProofH H post p root (H leaf) totalProofs
+
+/-- Which parent-hash layout the keeper verifies with: `ValidateProof` hands
+`claim.SessionHeader.SessionBlockHeight` to `Validate`, so it is the layout in force at the
+*session* height — the one root and proof were generated with — whatever the height of the block
+that carries the proof transaction. -/
+def verifierScheme (postSession _postProofBlock : Bool) : Bool := postSession
+
+/-- `Keeper.ValidateProof` (merkle part) for a claim whose session height is on side `postSession`
+of the hashing upgrade, run in a block on side `postProofBlock`. -/
+def keeperValidateH (H : Bytes → Bytes) (postSession postProofBlock : Bool) (p : MerkleProof)
+    (root : HashRange) (leafHash : Bytes) (totalProofs : Nat) : Option (Bool × Bool) :=
+  validateProofH H (verifierScheme postSession postProofBlock) p root leafHash totalProofs
+
+/-- `Keeper.ValidateProof` (merkle part). -/
+def keeperValidate (H : Bytes → Bytes) (postSession postProofBlock : Bool) (p : MerkleProof)
+    (root : HashRange) (leaf : Bytes) (totalProofs : Nat) : Option (Bool × Bool) :=
+  keeperValidateH H postSession postProofBlock p root (H leaf) totalProofs
 
 end SumIndex
